@@ -61,7 +61,7 @@ func c17Setup() {
 }
 
 var c17Segs = []string{"..", ".", "", "a.css", "app.js", "sub", "x.css", "page.html", "readme.md", "chart.js", "index.html", "private.md", "secret.txt",
-	"pub-private", "key.txt", "pub.bak", "%2e%2e", "%2E%2E", "..%2f", "%2f", "\\", "..\\", "%00", "a.css.", "a.css%20", "pub", "pubx", ".hidden", "theme.css", "data.txt", "...", "%5c", "secret.js", "%2e", "nodejs", "theme.scss", "src", "keys_js"}
+	"pub-private", "key.txt", "pub.bak", "%2e%2e", "%2E%2E", "..%2f", "%2f", "\\", "..\\", "%00", "a.css.", "a.css%20", "pub", "pubx", ".hidden", "theme.css", "data.txt", "...", "%5c", "secret.js", "%2e", "nodejs", "%252e%252e", "..%252f", "%252f", "%25%32%65", "theme.scss", "src", "keys_js"}
 
 func c17Gen(r *Rng, tier string, i int) Sx {
 	var segs []string
@@ -88,7 +88,7 @@ func c17Gen(r *Rng, tier string, i int) Sx {
 		for k := r.Intn(3); k > 0; k-- {
 			switch r.Intn(10) {
 			case 7:
-				p = r.Pick([]string{"../admin/index.html", "%2e%2e/admin/index.html", "../index.html", "sub/../../admin/index.html", "../pub.bak/a.css", "../pub-private/x.js",
+				p = r.Pick([]string{"%252e%252e/secret.txt", "sub/..%252f..%252fsecret.txt", "%252e%252e/pub-private/key.txt", "../admin/index.html", "%2e%2e/admin/index.html", "../index.html", "sub/../../admin/index.html", "../pub.bak/a.css", "../pub-private/x.js",
 					"../pub.bak/css/b.css", "%2e%2e/pub.bak/a.css", "./../secret.js", "sub//../../secret.js", "%2e/%2e%2e/secret.css", "././../../secret.js", ".//..//secret.css"})
 			case 8:
 				p = "./" + p + "/../../secret.js"
